@@ -33,6 +33,9 @@ pub const KINDS: &[ErrorKind] = &[
     ErrorKind::AlreadyExists,
 ];
 
+/// kinds for one-shot failures: the retryable ones first, then a few others
+pub const ONE_SHOT_KINDS: &[ErrorKind] = &[ErrorKind::Interrupted, ErrorKind::WouldBlock, ErrorKind::TimedOut, ErrorKind::Interrupted, ErrorKind::ConnectionReset, ErrorKind::Other, ErrorKind::UnexpectedEof];
+
 pub const SHAPE_LABELS: [&str; sio::ERR_SHAPES as usize] =
     ["error-shape:message", "error-shape:bare-kind", "error-shape:nested-io-error", "error-shape:source-chain", "error-shape:os-code", "error-shape:boxed-or-empty"];
 
@@ -124,6 +127,35 @@ fn faults<F: Family>(p: &F::Packet, t: &mut Tape, ctx: &mut Ctx) -> CaseResult {
                         other => viol!("poll decoder with a read error waiting right after the packet returned {:?}", other.as_ref().map(|q| fam::render(&q.pkt))),
                     }
                 }
+            }
+        }
+        // a one-shot failure: the transport fails once at this position (nothing consumed) and would deliver the rest
+        // afterwards. Here every kind is used, also Interrupted and WouldBlock: whether to try again is the caller's
+        // decision, so the decoders have to hand the error on; the poll decoder, polled again, then finishes the packet
+        if k < len && (i % 4 == 0 || len <= 64) {
+            let kind = ONE_SHOT_KINDS[(i / 4 + k) % ONE_SHOT_KINDS.len()];
+            shape_ctr += 1;
+            let shape = (shape_ctr % sio::ERR_SHAPES as usize) as u8;
+            let steps: &[Step] = if i % 8 == 0 { &chunky } else { &[] };
+            let run = fam::dec_poll_styled::<F>(&enc, steps, 0, Some((k, kind)), false, (shape << 4) | 8);
+            if let Some(got) = &run.transient_not_surfaced {
+                viol!("poll decoder: the transport failed once with {:?} at byte {} of {} and the decoder answered {} instead of that I/O error; packet {}", kind, k, len, got, fam::render(p));
+            }
+            match &run.result {
+                Ok(ok) if ok.pkt == *p && ok.total == len && run.resumed_after_error == 1 => {}
+                other => viol!("poll decoder polled again after a one-shot {:?} failure at byte {} of {} returned {:?} ({} resumptions); packet {}", kind, k, len, other.as_ref().map(|q| fam::render(&q.pkt)), run.resumed_after_error, fam::render(p)),
+            }
+            let mut rd = ScriptedReader::new(&enc, steps).with_fault_shape(shape);
+            rd.fail_once_at = Some((k, kind));
+            let (res, _) = sio::drive(F::decode_async(&mut rd), len + steps.len() + 8);
+            ensure!(rd.pos <= k, "async decoder consumed {} bytes although the transport failed (once, {:?}) at byte {}", rd.pos, kind, k);
+            match &res {
+                Err(e) if io_kind::<F>(e) == Some(kind) => {}
+                other => viol!("async decoder: the transport failed once with {:?} at byte {} of {} and the decoder returned {:?}; packet {}", kind, k, len, other.as_ref().map(|q| fam::render(q)), fam::render(p)),
+            }
+            ctx.label("one-shot-failure");
+            if kind == ErrorKind::Interrupted || kind == ErrorKind::WouldBlock {
+                ctx.label("one-shot-failure:retryable-kind");
             }
         }
         // end-of-stream at that position
@@ -328,6 +360,12 @@ pub fn run(env: &mut Env) -> RunResult {
     env.run_tapes(SUB_T3, n, 120)?;
     env.run_tapes(SUB_T5, n, 220)?;
     env.run_inputs(SUB_CONV, &[Input::Nums(vec![0])])?;
+    for s in ["c14.faults.v3", "c14.faults.v5", "c14.typed.v3", "c14.typed.v5"] {
+        env.require(s, "one-shot-failure:retryable-kind");
+        for l in SHAPE_LABELS {
+            env.require(s, l);
+        }
+    }
     let lim = env.tier.sel(3_000_000u64, 21_000_000u64);
     for (sub, fam) in [(SUB_S3, model::Fam::V3), (SUB_S5, model::Fam::V5)] {
         let cs: Vec<Input> = crate::sized::cases(fam, env.thorough())
